@@ -460,7 +460,9 @@ inline J plan_c18(uint64_t verif_seed, uint64_t index, int tier) {
                 c.set("rec", (int64_t)rf.below(100000));
                 static const int64_t deltas[] = {0, 1, 2, 3, 4, 5, -1, -2, -3, 0, 6, 8};
                 c.set("delta", deltas[rf.below(12)]);
-            } else if (oas && rf.chance(0.5)) {
+            } else if (oas && rf.chance(0.3)) {
+                c.set("tail_like_signature", (int64_t)rf.below(1u << 20));
+            } else if (oas && rf.chance(0.6)) {
                 // OASIS: header area, START record, the END record and its last bytes
                 static const int64_t spots[] = {0, 1, 13, 14, 15, 16, 17, 18, 19, 20, 24, -1, -2, -3, -4, -5, -6, -7, -255, -256, -257};
                 c.set("spot", spots[rf.below(21)]);
@@ -596,6 +598,7 @@ inline J plan_c01(uint64_t verif_seed, uint64_t index, int tier) {
     s.set("max_points", (int64_t)max_points);
     s.set("ts", random_ts(ro));
     s.set("via", writer ? "writer" : "lib");
+    if (rsch.chance(0.12)) s.set("second_save", true);
     ops.push(s);
     J l = op("load_check");
     l.set("file", "/sim/c0.gds");
@@ -803,6 +806,7 @@ inline J plan_c03(uint64_t verif_seed, uint64_t index, int tier) {
             s.set("max_points", (int64_t)max_points);
             s.set("ts", random_ts(ro));
             s.set("via", ro.chance(0.35) ? "writer" : "lib");
+            if (rsch.chance(0.12)) s.set("second_save", true);
             ops.push(s);
         }
         J pc = op("peer_check");
@@ -1195,6 +1199,7 @@ inline J plan_c02(uint64_t verif_seed, uint64_t index, int tier) {
     s.set("flags", flags);
     s.set("level", level);
     s.set("tol", tol);
+    if (rsch.chance(0.12)) s.set("second_save", true);
     ops.push(s);
     auto add_validate = [&](const std::string& f) {
         J v = op("validate_check");
@@ -1318,6 +1323,7 @@ inline J plan_c04(uint64_t verif_seed, uint64_t index, int tier) {
         s.set("flags", flags);
         s.set("level", level);
         s.set("tol", tol);
+        if (rsch.chance(0.12)) s.set("second_save", true);
         ops.push(s);
         J pc = op("peer_check_oas");
         pc.set("file", "/sim/w.oas");
@@ -1327,9 +1333,47 @@ inline J plan_c04(uint64_t verif_seed, uint64_t index, int tier) {
         pc.set("circle_tol", tol);
         pc.set("level_class", level == 0 ? 0 : 1);
         ops.push(pc);
+        if (rsch.chance(0.25)) {
+            // history: the library that is written was itself loaded from a file gdstk wrote under other
+            // options; what the second file says about itself must be true of the second file
+            J l = op("load_check_oas");
+            l.set("file", "/sim/w.oas");
+            J e1 = J::obj();
+            e1.set("model", 0);
+            l.set("expect", e1);
+            l.set("circle_tol", tol);
+            l.set("keep", "L0");
+            l.set("level_class", level == 0 ? 0 : 1);
+            ops.push(l);
+            if (rsch.chance(0.5)) {
+                J ed = op("edit_add_ref");
+                ed.set("lib", "L0");
+                ed.set("a", (int64_t)rsch.below(1000));
+                ed.set("b", (int64_t)rsch.below(1000));
+                ed.set("dx", rsch.range(-500, 500));
+                ed.set("dy", rsch.range(-500, 500));
+                ops.push(ed);
+            }
+            uint64_t combo2 = (uint64_t)rsch.below(5120);
+            J rsv = op("resave_oas");
+            rsv.set("from", "L0");
+            rsv.set("file", "/sim/w2.oas");
+            rsv.set("flags", (int64_t)(combo2 % 256));
+            rsv.set("level", (int64_t)((combo2 / 256) % 10));
+            rsv.set("tol", 0.0);
+            ops.push(rsv);
+            J pc2 = op("peer_check_oas");
+            pc2.set("file", "/sim/w2.oas");
+            J e2 = J::obj();
+            e2.set("model", 0);
+            pc2.set("expect", e2);
+            pc2.set("circle_tol", tol);
+            pc2.set("level_class", ((combo2 / 256) % 10) == 0 ? 0 : 1);
+            pc2.set("resaved", true);
+            ops.push(pc2);
+        }
     }
     (void)rc;
-    (void)rsch;
     plan.set("models", models);
     plan.set("ops", ops);
     return plan;
